@@ -55,10 +55,29 @@ class Canvas:
                                 stdout=subprocess.PIPE, stderr=subprocess.STDOUT, start_new_session=True)
 
     def trace(self):
+        """what the probes wrote, in the order they wrote it - except that ADJACENT start lines of parallel steps are put
+        in configuration order: the loop forks such steps back to back and which probe gets to write its line first is the
+        scheduler's choice, not the loop's (seen once in ~4000 runs: 'start f' before 'start e').  The order in which the
+        loop launches parallel steps is therefore not observed; that each of them starts, when, and before or after every
+        end and every synchronous start, is."""
         try:
-            return [l.split() for l in open(os.path.join(self.orch, 'trace')).read().splitlines() if l.strip()]
+            tr = [l.split() for l in open(os.path.join(self.orch, 'trace')).read().splitlines() if l.strip()]
         except OSError:
             return []
+        idx = {st['name']: i for i, st in enumerate(self.steps)}
+        par = {st['name'] for st in self.steps if st.get('parallel')}
+        out, i = [], 0
+        while i < len(tr):
+            j = i
+            while j < len(tr) and tr[j][0] == 'start' and len(tr[j]) > 1 and tr[j][1] in par:
+                j += 1
+            if j - i > 1:
+                out += sorted(tr[i:j], key=lambda t: idx.get(t[1], 0))
+                i = j
+            else:
+                out.append(tr[i])
+                i += 1
+        return out
 
     def open_gate(self, name, code):
         p = os.path.join(self.orch, 'gate', name)
